@@ -23,7 +23,10 @@ from the track (`Lemmas/PartitionStops.lean`; ordered commutative ring): `stops_
 `stops_criterion` (the reward matrix is the documented one — enclosing circle and duration only: the row loop's early exit is
 sound for the PLANIMETRIC distance), `stops_fit_in_circle`, `stops_track_optimal`, `stops_final_filter`, `find_stops_global`
 (caller's arguments → stops returned, `downsampling` included) and `find_stops_global_checked` (its hypothesis on the circles
-as the certificate `enclosedB` the driver evaluates on every case). Lists are Python lists of indices. -/
+as the certificate `enclosedB` the driver evaluates on every case). Lists are Python lists of indices.
+Further property theorems: `Props/C12MinCircle.lean` (`minCircle` as modelled: the two findings as theorems, what is guaranteed),
+`Props/C12MinCircleStops.lean` (the reward matrix with `minCircle` as modelled), `Props/C12Dispatch.lean` (`findStops`),
+`Props/C12Collection.lean` (`TrackCollection.simplify`), `Props/C12Round.lean` (rounded addition = rounding of the exact sum). -/
 namespace TV.C12
 open TV.Partition
 variable {α : Type} [AddCommMonoid α] [LinearOrder α] [IsOrderedAddMonoid α]
